@@ -203,9 +203,6 @@ Qed.
 (** the name of the Var a symbol denotes is the name written (no :rename is modelled) *)
 Definition spelled_name (spl : spelling) : str := match spl with Bare n => n | Qual _ n => n end.
 
-Lemma find_name st m n k : wf st -> find st m n = Some k -> True.
-Proof. auto. Qed.
-
 (** ---- spellings agree ---- *)
 Section Spellings.
   Variable st : sstate.
